@@ -41,7 +41,7 @@ WALL = 30.0
 ID = "C38"
 
 RULE_THREADS = ("mode threads: 1-3 foreign threads each issuing 1-6 add_callback calls with pauses, "
-                "started at generated points of a loop-thread program (own add_callbacks, raising "
+                "some of them inside their own running event loop, started at generated points of a loop-thread program (own add_callbacks, raising "
                 "callbacks, sleeps, ticks, idle waits), thread-schedule tape (random switch rate or "
                 "1-3 placed pre-emptions; line-level in part of thorough). non-trivial = >=1 "
                 "foreign add_callback AND >=1 scheduling decision against the default AND the loop "
@@ -80,6 +80,10 @@ def gen(rng, tier, index):
         if not any(s["op"] != "pause" for s in steps):
             steps.append({"op": "cb"})
         threads.append(steps)
+    # a foreign thread may itself be inside its own running event loop (e.g. a coroutine of
+    # another asyncio loop handing work to this IOLoop): asyncio.get_running_loop() then
+    # succeeds in that thread and returns a loop that is NOT the target's
+    inloop = [rng.random() < 0.4 for _ in range(nth)]
     main = []
     starts = list(range(nth))
     rng.shuffle(starts)
@@ -105,7 +109,8 @@ def gen(rng, tier, index):
         else:
             main.append({"op": "join", "t": rng.randrange(nth)})
     return {"property": ID, "version": 1, "mode": "threads", "knobs": {"line": line},
-            "threads": threads, "main": main, "tapes": {"thread": _tape(rng, line)}}
+            "threads": threads, "inloop": inloop, "main": main,
+            "tapes": {"thread": _tape(rng, line)}}
 
 
 def validate(scn):
@@ -121,6 +126,8 @@ def validate(scn):
                 return False
             if "t" in o and not (0 <= o["t"] < max(1, len(th))):
                 return False
+        if not isinstance(scn.get("inloop", []), list):
+            return False
         return isinstance(scn.get("tapes", {}), dict) and isinstance(scn["knobs"], dict)
     except Exception:
         return False
@@ -128,6 +135,19 @@ def validate(scn):
 
 class _Boom(Exception):
     pass
+
+
+class _ForeignLoop(asyncio.AbstractEventLoop):
+    """Stands for "some other event loop is running in this (foreign) thread"."""
+
+    def is_running(self):
+        return True
+
+    def is_closed(self):
+        return False
+
+    def get_debug(self):
+        return False
 
 
 def _child(request, result):
@@ -261,13 +281,29 @@ def _child(request, result):
         log.ev("sched", ident, sched.cur.idx)
         state["io"].add_callback(callback, ident)
 
+    inloop = scn.get("inloop") or []
+
     def foreign(tnum, steps):
+        own_loop = tnum - 1 < len(inloop) and bool(inloop[tnum - 1])
+
         def body():
-            for s in steps:
-                sched.yield_("foreign.step")
-                if s["op"] == "pause":
-                    continue
-                schedule(tnum, s["op"] == "cb_raise")
+            if own_loop:
+                # what run_forever() does for the thread it runs in
+                asyncio.events._set_running_loop(_ForeignLoop())
+                probe("foreign_thread_inside_own_loop")
+            try:
+                for s in steps:
+                    sched.yield_("foreign.step")
+                    if s["op"] == "pause":
+                        continue
+                    if own_loop:
+                        lt = sched.threads[0]
+                        if lt.state == BLOCKED and lt.where == "loop.sleep":
+                            probe("add_callback_from_other_running_loop_while_target_asleep")
+                    schedule(tnum, s["op"] == "cb_raise")
+            finally:
+                if own_loop:
+                    asyncio.events._set_running_loop(None)
             probe("foreign_thread_finished")
         return body
 
